@@ -683,6 +683,29 @@ def run(tier, seed):
                                 stream, case[:300], body[max(0, j - 60):j + 60], mbody[max(0, j - 60):j + 60]))
                 if len(samples) < 6 and i % max(1, len(impl) // 3) == 0:
                     samples.append({"case": case[:200], "impl": body[:300]})
+    # directed search for confused constants: long runs of distinct constants, read back at the end
+    # (a 32-bit-wide intern key shows up by the birthday bound at about 80k constants)
+    okI, outI = vplib.cargo_build("debug", bins=["intern"])
+    if not okI:
+        v.tie_failure("harness build failed (intern): " + outI[-400:])
+    else:
+        n = 1500000 if tier == "thorough" else 250000
+        rng = vplib.rng_for(PID, seed)
+        lines = ["S int %d %d 1" % (n, rng.randrange(1 << 31)), "S float %d %d 1" % (n, rng.randrange(1 << 40)),
+                 "S sym %d %d %d" % (n, rng.randrange(1 << 60), rng.choice([1, 7919, (1 << 32) + 1])),
+                 "S mix %d %d 1" % (n, rng.randrange(1 << 31)), "S char 53248 0 1",
+                 "B int 20000 %d 1" % rng.randrange(1 << 31), "B mix 20000 %d 3" % rng.randrange(1 << 31)]
+        rc, outl = vplib.run_lines([vplib.private_copy(vplib.harness_bin("intern"))], "\n".join(lines) + "\n", timeout=900)
+        stats["intern_stress"] = {}
+        if rc != 0 or len(outl) != len(lines):
+            v.tie_failure("intern stress run rc=%s lines=%d/%d" % (rc, len(outl), len(lines)))
+        for ln in outl:
+            case, _, res = ln.partition("\t")
+            stats["intern_stress"][case] = res[:80]
+            if res.startswith("ok"):
+                stats["steps"] += int(res.split("n=")[1])
+            else:
+                v.violation(component="intern", input="intern " + case, what="distinct constants are confused: " + res, impl=res)
     viol.sort(key=lambda x: x[0])
     for n, case, probs, body in viol[:20]:
         v.violation(component="store", input=case, what=probs[0], all_problems=probs[:6], impl=body[:1500])
